@@ -298,6 +298,14 @@ pub fn replay(kind: &str, case: &Value) -> Result<(), String> {
         "ts" => check_ts(&serde_json::from_value(case.clone()).map_err(e)?, &mut st),
         "proj" => check_proj(&serde_json::from_value(case.clone()).map_err(e)?, &mut st),
         "edge" => check_edge(&serde_json::from_value(case.clone()).map_err(e)?, &mut st),
+        "badns" => {
+            let (c, ns, f): (search::SearchCase, u32, Fields) = serde_json::from_value(case.clone()).map_err(e)?;
+            let tzv = c.zone.to_tz().map_err(|e| format!("{e:?}"))?;
+            match DateTime::find(f.y, f.mo, f.d, f.h, f.mi, f.s, ns, tzv.as_ref()) {
+                Ok(l) if l.clone().into_inner().iter().any(|k| matches!(k, FoundDateTimeKind::Normal(d) if d.nanoseconds() >= 1_000_000_000)) => Err(format!("find with nanoseconds {ns} returned a value carrying them")),
+                _ => Ok(()),
+            }
+        }
         _ => search::replay_search(Focus::C14, case),
     }
 }
@@ -346,6 +354,41 @@ pub fn run(ctx: &Ctx) -> Outcome {
     }
     let s_edge = (gens::arb_ltt_wide(), 0u8..3, any::<bool>(), prop_oneof![3 => -10i64..200_000, 2 => 0i64..2_200_000_000, 1 => 0i64..100]).prop_map(|(ltt, shape, top, dist)| EdgeCase { ltt, shape, top, dist });
     let rs = par_shards(16, |shard, st| pt_shard(ctx, "edge", 300 + shard, cases, &s_edge, st, check_edge));
+    out.absorb_all(rs);
+    if out.failure.is_some() {
+        return out;
+    }
+    // a search given nanoseconds >= 1e9 must not hand out a date-time carrying them (zones with a table / a rule, not only fixed ones)
+    let s_badns = (search::arb_search_case(8, 4), 1_000_000_000u32..=u32::MAX, gens::arb_valid_fields());
+    let rs = par_shards(8, |shard, st| {
+        pt_shard(ctx, "badns", 500 + shard, ctx.tier.pick(3_000u32, 60_000u32), &s_badns, st, |(c, ns, f), st| {
+            st.eval(1);
+            st.nontrivial(&(&c.zone, *ns, *f));
+            let tzv = match c.zone.to_tz() {
+                Ok(t) => t,
+                Err(_) => return Ok(()),
+            };
+            let mut buf = [None; 2];
+            let r1 = DateTime::find(f.y, f.mo, f.d, f.h, f.mi, f.s, *ns, tzv.as_ref()).map(|l| l.into_inner());
+            let r2 = DateTime::find_n(&mut buf, f.y, f.mo, f.d, f.h, f.mi, f.s, *ns, tzv.as_ref()).map(|l| l.data().to_vec());
+            for (name, r) in [("find", r1.map(|v| v.into_iter().map(Some).collect::<Vec<_>>())), ("find_n", r2)] {
+                if let Ok(v) = r {
+                    for k in v.into_iter().flatten() {
+                        let ds = match k {
+                            FoundDateTimeKind::Normal(d) => vec![d],
+                            FoundDateTimeKind::Skipped { before_transition, after_transition } => vec![before_transition, after_transition],
+                        };
+                        for d in ds {
+                            if d.nanoseconds() >= 1_000_000_000 {
+                                return Err(format!("{name} with nanoseconds {ns} in zone {:?} returned {d} whose nanoseconds are {} (fields are validated in the search: such a value must be refused)", c.zone, d.nanoseconds()));
+                            }
+                        }
+                    }
+                }
+            }
+            Ok(())
+        })
+    });
     out.absorb_all(rs);
     if out.failure.is_some() {
         return out;
